@@ -486,7 +486,7 @@ def cv22(prog, rr):
 
 
 # --------------------------------------------------------------------------------------- RS13
-@rule("RS13", ["C20", "C06"], "pass 0 of the rand-info builder (which collects solve_order directives) walks expression statements like pass 1 does", engine="DF", floor=2)
+@rule("RS13", ["C20", "C06", "C07"], "pass 0 of the rand-info builder (which collects solve_order directives) walks expression statements like pass 1 does", engine="DF", floor=2)
 def rs13(prog, rr):
     c = prog.cls("RandInfoBuilder")
     from tables.exceptions import RS13_PASS_GATES
